@@ -6,7 +6,7 @@
    inductive proofs over executions of programs of any size (any number of statements, loads, fetches). *)
 From Coq Require Import String List Bool.
 Import ListNotations.
-From VTL Require Import Model.Errors Model.ErrMap Proofs.ErrMapP Gen.Errors Gen.ErrLits.
+From VTL Require Import Model.ErrMap Proofs.ErrMapP Gen.Errors Gen.ErrLits.
 Open Scope string_scope.
 
 (* ---- tie, checked by the kernel: the two hand-written decision lists ARE the code's mappers on every dumped message *)
@@ -20,7 +20,7 @@ Theorem C32_model_is_code_pointwise : forall msg q l, In (msg, (q, l)) map_table
   mres_eqb (map_query msg) q = true /\ mres_eqb (map_load msg) l = true.
 Proof.
   intros msg q l Hin. pose proof (proj1 (forallb_forall _ _) C32_model_is_code _ Hin) as H.
-  unfold row_ok in H. simpl in H. apply andb_true_iff in H. exact H.
+  unfold row_ok in H. cbn [fst snd] in H. apply andb_true_iff in H. exact H.
 Qed.
 
 (* ---- the faithful per-stage handler flags are the ones found in the code (where the scan classified the stage) *)
@@ -32,54 +32,33 @@ Proof. vm_compute. reflexivity. Qed.
 
 (* ---- every macro error literal, in each stage it can be raised in *)
 Definition lit_entry (x : string * stage * string) : stage * string := (snd (fst x), snd x).
-Definition in_catalogue (e : exn) : bool :=
-  match e with VTL _ c => match lookup c catalogue with Some _ => true | None => false end | _ => false end.
-Definition lit_ok (M : stage -> mapper) (x : string * stage * string) : bool :=
-  in_catalogue (apply_mapper (M (snd (fst x))) (RawDB (snd x))).
 
 (* SPEC (a handler in every stage that executes SQL): each literal becomes a VTL error with a catalogued code *)
 Theorem C32_mapped_macro_errors_spec :
   forall site s msg, In (site, s, msg) macro_lits ->
-  exists k c, apply_mapper (stage_mapper_spec s) (RawDB msg) = VTL k c /\ lookup c catalogue <> None.
-Proof.
-  intros site s msg Hin.
-  assert (H : forallb (lit_ok stage_mapper_spec) macro_lits = true) by (vm_compute; reflexivity).
-  pose proof (proj1 (forallb_forall _ _) H _ Hin) as Hx. unfold lit_ok, in_catalogue in Hx. simpl in Hx.
-  destruct (apply_mapper (stage_mapper_spec s) (RawDB msg)) as [k c| |]; try discriminate.
-  exists k, c. split; [reflexivity|]. destruct (lookup c catalogue); [discriminate | discriminate].
-Qed.
+  exists k c, apply_mapper (stage_mapper_spec s) (RawDB msg) = VTL k c /\ cat_lookup c catalogue <> None.
+Proof. apply lits_all_ok. vm_compute. reflexivity. Qed.
 
-(* FAITHFUL, partial: wherever the code has a handler around the stage, the literal becomes a catalogued VTL error *)
+(* FAITHFUL, partial: wherever the code has a handler around the stage, every literal other than the 2-1-19-21 one
+   (vtl_period_to_sdmx_gregorian, for which _map_query_error has no rule) becomes a catalogued VTL error *)
+Definition no_rule_literal (msg : string) : bool := contains "2-1-19-21" msg.
+
 Theorem C32_mapped_macro_errors_impl_partial :
-  forall site s msg, In (site, s, msg) macro_lits -> stage_mapper_impl s <> NoMap ->
-  exists k c, apply_mapper (stage_mapper_impl s) (RawDB msg) = VTL k c /\ lookup c catalogue <> None.
-Proof.
-  intros site s msg Hin Hm.
-  assert (H : forallb (fun x => mapper_eqb (stage_mapper_impl (snd (fst x))) NoMap || lit_ok stage_mapper_impl x) macro_lits = true)
-    by (vm_compute; reflexivity).
-  pose proof (proj1 (forallb_forall _ _) H _ Hin) as Hx. simpl in Hx.
-  apply orb_true_iff in Hx. destruct Hx as [Hx|Hx].
-  - exfalso. apply Hm. destruct (stage_mapper_impl s); simpl in Hx; try discriminate; reflexivity.
-  - unfold lit_ok, in_catalogue in Hx. simpl in Hx.
-    destruct (apply_mapper (stage_mapper_impl s) (RawDB msg)) as [k c| |]; try discriminate.
-    exists k, c. split; [reflexivity|]. destruct (lookup c catalogue); discriminate.
-Qed.
+  forall site s msg, In (site, s, msg) macro_lits -> stage_mapper_impl s <> NoMap -> no_rule_literal msg = false ->
+  exists k c, apply_mapper (stage_mapper_impl s) (RawDB msg) = VTL k c /\ cat_lookup c catalogue <> None.
+Proof. apply lits_handled_ok. vm_compute. reflexivity. Qed.
+
+(* FAITHFUL, refuted: a macro literal raised by statement execution (a handled stage) for which the mapper has no rule *)
+Theorem C32_mapped_macro_errors_impl_norule_refuted :
+  exists site s msg, In (site, s, msg) macro_lits /\ stage_mapper_impl s <> NoMap /\
+                     is_vtl (apply_mapper (stage_mapper_impl s) (RawDB msg)) = false.
+Proof. apply lits_norule. vm_compute. reflexivity. Qed.
 
 (* FAITHFUL, refuted: a macro literal is raised in a stage that has no handler, and leaves run() as a raw DuckDB error *)
 Theorem C32_mapped_macro_errors_impl_refuted :
   exists site s msg, In (site, s, msg) macro_lits /\ stage_mapper_impl s = NoMap /\
                      apply_mapper (stage_mapper_impl s) (RawDB msg) = RawDB msg.
-Proof.
-  assert (H : existsb (fun x => negb (lit_ok stage_mapper_impl x)) macro_lits = true) by (vm_compute; reflexivity).
-  apply existsb_exists in H. destruct H as [[[site s] msg] [Hin Hbad]].
-  exists site, s, msg. split; [exact Hin|].
-  unfold lit_ok in Hbad. simpl in Hbad.
-  assert (Hall : forallb (fun x => lit_ok stage_mapper_impl x || mapper_eqb (stage_mapper_impl (snd (fst x))) NoMap) macro_lits = true)
-    by (vm_compute; reflexivity).
-  pose proof (proj1 (forallb_forall _ _) Hall _ Hin) as Hx. simpl in Hx. unfold lit_ok in Hx. simpl in Hx.
-  apply negb_true_iff in Hbad. rewrite Hbad in Hx. simpl in Hx.
-  destruct (stage_mapper_impl s) eqn:E; simpl in Hx; try discriminate. split; reflexivity.
-Qed.
+Proof. apply lits_escape. vm_compute. reflexivity. Qed.
 
 (* ---- the general theorem: any program of stages, handlers and finally-blocks (unbounded size) *)
 Theorem C32_escape_closed :
@@ -126,7 +105,7 @@ Qed.
 
 (* non-vacuity: there are literals, rows, both mapped and unmapped entries; the hypotheses of run_closed are satisfiable *)
 Example C32_nonvacuous :
-  (10 <=? length macro_lits)%nat = true /\ (100 <=? length map_table)%nat = true /\
+  Nat.leb 10 (length macro_lits) = true /\ Nat.leb 100 (length map_table) = true /\
   existsb (entry_ok stage_mapper_impl) raisable_tab = true /\
   map_query "Invalid Input Error: VTL 2-1-15-6: Scalar division by Zero" = Mapped KRuntime "2-1-15-6" /\
   map_query "Out of Range Error: Overflow in addition of INT64" = Unmapped /\
@@ -150,6 +129,7 @@ Print Assumptions C32_stage_flags_model_is_code.
 Print Assumptions C32_mapped_macro_errors_spec.
 Print Assumptions C32_mapped_macro_errors_impl_partial.
 Print Assumptions C32_mapped_macro_errors_impl_refuted.
+Print Assumptions C32_mapped_macro_errors_impl_norule_refuted.
 Print Assumptions C32_escape_closed.
 Print Assumptions C32_run_closed.
 Print Assumptions C32_run_spec_closed.
